@@ -67,7 +67,7 @@ def oracle(name, ib, mb, meta):
             if kv.get('mtufail') == '1' or mtu == 0: mtu = 1500 if 'c07' != 'c06' else -1   # getter fails: the responder assumes 1500 (an Emit is dropped)
         if tr is None: tr = SeeTracker(own)
         if not b.op.startswith('frame 0 ') or b.fault: continue
-        ctx, fr = frame_of(b); d = dec(fr + bytes(max(0, 36 - len(fr))))
+        ctx, fr = frame_of(b); d = dec(rxview(b, fr))
         if d['tos'] != 0: continue
         if d['opc'] in (3, 4): tr.own = own; tr.feed_probe(d)
         elif d['opc'] == 8: tr.pending.clear(); tr.open = False
@@ -101,7 +101,7 @@ def count(name, lines, ib, stats, meta):
     for b in ib:
         if b.op.startswith('cfg 0'): mtu = int(dict(t.split('=', 1) for t in b.op.split()[2:])['mtu'])
         if not b.op.startswith('frame 0 '): continue
-        ctx, fr = frame_of(b); d = dec(fr + bytes(max(0, 36 - len(fr))))
+        ctx, fr = frame_of(b); d = dec(rxview(b, fr))
         if d['opc'] == 6 and d['tos'] == 0:
             stats['evaluations'] += 1
             sn = sends_of(b); q = qresp_fields(sn[0][2]) if sn else None
